@@ -179,10 +179,11 @@ func dayEP(n int) endpoint {
 
 func TestCheckWindows(t *testing.T) {
 	s := harness.NewSub("day-windows-exhaustive",
-		"every ordered pair of day ranges [a,b] x [c,d], a<=b, c<=d, inside three 14-day windows (23 Feb-7 Mar 2024 across the leap day, 25 Dec 1999-7 Jan 2000 across a year end, 1-14 Jan 0001 at the lower limit; thorough: 28-day windows); all distinct by construction; non-trivial = an endpoint coincidence or a single-day operand")
+		"every ordered pair of day ranges [a,b] x [c,d], a<=b, c<=d, inside seven 14-day windows (23 Feb-7 Mar 2024 across the leap day, 25 Dec 1999-7 Jan 2000 across a year end, 25 Dec 2000-7 Jan 2001 across the end of a leap year, 23 Feb-8 Mar 1900 in a century year that is not a leap year, 26 Oct-8 Nov 2023 across a month end from a 2-digit to a 1-digit day, 1-14 Jan 0001 and the last 14 days of 9999 at the limits; thorough: 28-day windows); all distinct by construction; non-trivial = an endpoint coincidence or a single-day operand")
 	s.SetExhaustive(true)
 	w := harness.Pick(14, 28)
-	starts := []int{ref.CivilDay(2024, 2, 23), ref.CivilDay(1999, 12, 25), ref.CivilDay(1, 1, 1), ref.CivilDay(9999, 12, 31) - w + 1}
+	starts := []int{ref.CivilDay(2024, 2, 23), ref.CivilDay(1999, 12, 25), ref.CivilDay(1, 1, 1), ref.CivilDay(9999, 12, 31) - w + 1,
+		ref.CivilDay(2000, 12, 25), ref.CivilDay(1900, 2, 23), ref.CivilDay(2023, 10, 26)}
 	shard, ns := harness.Shard(), harness.NShards()
 	idx := 0
 	for _, s0 := range starts {
